@@ -145,7 +145,7 @@ Record contracts (O : oracles) : Prop := {
   ct_kw : forall k c e, o_kw_wrap O k c = Ok e -> o_kw_unwrap O k e = Ok (Some c);
   ct_rsa : forall k p c e, o_rsa_enc O k p c = Ok e -> o_rsa_dec O k p e = Ok c;
   ct_ecdh : forall a b z, o_ecdh O a b = Ok z -> o_ecdh O b a = Ok z;
-  ct_zip : forall m z, o_deflate O m = Ok z -> o_inflate O z = Ok m
+  ct_zip : forall m z, o_deflate O m = Ok z -> o_inflate O (strip_zlib z) = Ok m
 }.
 
 Section RT.
@@ -1508,7 +1508,7 @@ Definition toy_oracles : oracles := {|
   o_ecdh := fun _ _ => Ok [3];
   o_import := fun _ _ => Err EValue;
   o_loads := fun _ => Err EValue; o_dumps := fun _ => Ok [];
-  o_deflate := fun m => Ok m; o_inflate := fun z => Ok z;
+  o_deflate := fun m => Ok ([120; 156] ++ m ++ [0; 0; 0; 0]); o_inflate := fun z => Ok z;
   o_check_header := fun _ _ => Ok tt |}.
 
 Lemma toy_contracts : contracts toy_oracles.
